@@ -90,7 +90,9 @@ SPEC = [
      'consts': ['METADATA_QUERY_INDICATOR_CHAR']},
     {'module': 'coder', 'file': 'pybufrkit/coder.py',
      'consts': ['BITMAP_NA', 'BITMAP_INDICATOR', 'BITMAP_WAITING_FOR_BIT', 'BITMAP_BIT_COUNTING',
-                'QA_INFO_NA', 'QA_INFO_WAITING', 'QA_INFO_PROCESSING']},
+                'QA_INFO_NA', 'QA_INFO_WAITING', 'QA_INFO_PROCESSING'],
+     # (w5-codersrc) CoderState / Coder methods: specification in harness/py2lean_state.py STATE_SPECS['coder']
+     'state': 'coder'},
     {'module': 'utils', 'file': 'pybufrkit/utils.py',
      'consts': ['TEXT_SECTION_HEADER', 'TEXT_SUBSET_HEADER'],
      'funcs': {'fixed_width_repr_of_int': {'params': {'value': 'int', 'width': 'int', 'pad_left': 'bool'}},
@@ -110,6 +112,40 @@ SPEC = [
      'funcs': {'process_embedded_query_expr': {'params': {'input_string': 'str'}}}},
 ]
 
+# ---- w5-smallsrc: small self-contained functions.  `'compiler': 'small'` selects the subclass
+# harness/py2lean_small.py:SmallCompiler (constructs listed in notes/Tie.md, "Constructs added for the small
+# functions"); `'locals'` declares, for a local variable that is re-bound to values of different types, its
+# type slots in order (each slot is its own field of the record of locals; Lean type-checks the choice).
+SPEC += [
+    {'module': 'encoder', 'file': 'pybufrkit/encoder.py',
+     'funcs': {'nbits_for_uint': {'params': {'x': 'int'}, 'compiler': 'small'}}},
+]
+
+
+def _spec_of(module):
+    return [s for s in SPEC if s['module'] == module][0]
+
+
+SPEC += [
+    # bufr.py BufrMessage.subset: the index logic, as two fragments (the method as a whole walks section and
+    # parameter objects and returns values of mixed types)
+    {'module': 'bufr', 'file': 'pybufrkit/bufr.py',
+     'fragments': {
+         'subset_checks': {'class': 'BufrMessage', 'method': 'subset', 'stmts': [0, 3], 'result': 'n_subsets',
+                           'params': {'subset_indices': 'list[int]'},
+                           'subst': {'self.n_subsets.value': ('n_subsets_value', 'int')}},
+         'subset_select': {'class': 'BufrMessage', 'method': 'subset', 'expr': 'ListComp',
+                           'params': {'subset_indices': 'list[int]'},
+                           'subst': {'parameter.value.decoded_values_all_subsets': ('rows', 'list[obj]')}},
+     }},
+]
+
+_spec_of('mdquery').setdefault('classes', {}).update({
+    'MetadataExprParser': {'attrs': {}, 'methods': {
+        'parse': {'params': {'metadata_expr': 'str'}, 'compiler': 'small',
+                  'locals': {'section_index': ['str', 'opt[int]']}}}},
+})
+
 LEAN_KEYWORDS = set('''at from in do then else if fun end open instance structure where with match let have show by
 theorem def example import namespace section variable universe class inductive mutual deriving for unless return
 try catch finally macro syntax notation infix infixl infixr prefix postfix abbrev opaque axiom private protected
@@ -118,6 +154,8 @@ Type Prop Sort'''.split())
 
 
 def lean_ident(name):
+    if name == '_':
+        return 'underscore_'      # (w5-codersrc) the throw-away target of `a, _ = ...`
     return name + '_' if name in LEAN_KEYWORDS else name
 
 
@@ -177,9 +215,17 @@ def parse_type(s):
     return (m.group(1),) + tuple(parse_type(p) for p in parts)
 
 
+# (w5-codersrc) kinds added by extensions (harness/py2lean_state.py): kind prefix -> renderer returning (text, atomic)
+TYPE_EXT = {}
+DEFAULT_EXT = {}
+
+
 def lean_type(t, top=True):
     t = prune(t)
     k = t[0]
+    if k.split(':')[0] in TYPE_EXT:
+        r, atomic = TYPE_EXT[k.split(':')[0]](t)
+        return r if (top or atomic) else '(' + r + ')'
     if k == 'int':
         return 'Int'
     if k == 'nat':
@@ -208,6 +254,8 @@ def lean_type(t, top=True):
         r = 'List (%s × %s)' % (lean_type(t[1]), lean_type(t[2]))
     elif k == 'tuple':
         r = ' × '.join(lean_type(x, False) for x in t[1:])
+    elif k == 'opt':      # `None` or a value of type T
+        r = 'Option ' + lean_type(t[1], False)
     else:
         raise ValueError(t)
     return r if top else '(' + r + ')'
@@ -216,6 +264,8 @@ def lean_type(t, top=True):
 def default_value(t):
     t = prune(t)
     k = t[0]
+    if k.split(':')[0] in DEFAULT_EXT and DEFAULT_EXT[k.split(':')[0]](t) is not None:
+        return DEFAULT_EXT[k.split(':')[0]](t)
     if k in ('int', 'nat'):
         return '0'
     if k == 'bool':
@@ -614,6 +664,9 @@ class ExprCompiler(object):
                 return self.lift([b, a], lambda c: '(%sPy.dictContains %s %s)' % (neg, c[0], c[1]), BOOL)
             if kb == 'tuple' and isinstance(e.comparators[0], ast.Tuple):
                 alts = [self.expr(x) for x in e.comparators[0].elts]
+                if {prune(x.ty) for x in alts + [a]} == {INT, NAT}:
+                    # (w5-codersrc) an int compared with literals: everything in Int
+                    a, alts = self.to_int(a), [self.to_int(x) for x in alts]
                 for x in alts:
                     self.unify(a.ty, x.ty, e)
                 return self.lift([a] + alts, lambda c: '(%s(%s))' % (neg, ' || '.join(
@@ -2209,9 +2262,10 @@ class ModuleGen(object):
                 raise Py2LeanUnsupported(self.mod.relpath, 0, 'function %s not found exactly once' % fname)
             node = nodes[0]
             params = {p: parse_type(t) for p, t in fs['params'].items()}
-            fc = FuncCompiler(self.mod, self, node, lean_ident(fname), params,
-                              returns=parse_type(fs['returns']) if fs.get('returns') else None,
-                              recursive=bool(fs.get('recursive')))
+            fc = compiler_class(fs)(self.mod, self, node, lean_ident(fname), params,
+                                    returns=parse_type(fs['returns']) if fs.get('returns') else None,
+                                    recursive=bool(fs.get('recursive')))
+            fc.spec = fs
             a, b, _ = self.mod.src(node)
             doc = '/-- %s:%d-%d  `def %s` -/' % (self.mod.relpath, a, b, fname)
             text, raises = fc.render(doc)
@@ -2237,7 +2291,9 @@ class ModuleGen(object):
                     raise Py2LeanUnsupported(self.mod.relpath, cnode, 'method %s.%s not found exactly once' % (cname, mname))
                 node = methods[mname][0]
                 params = {p: parse_type(t) for p, t in ms.get('params', {}).items()}
-                fc = FuncCompiler(self.mod, self, node, '%s.%s' % (cname, lean_ident(mname)), params, self_attrs=attrs)
+                fc = compiler_class(ms)(self.mod, self, node, '%s.%s' % (cname, lean_ident(mname)), params, self_attrs=attrs,
+                                        returns=parse_type(ms['returns']) if ms.get('returns') else None)
+                fc.spec = ms
                 a, b, _ = self.mod.src(node)
                 doc = '/-- %s:%d-%d  `%s.%s` -/' % (self.mod.relpath, a, b, cname, mname)
                 text, raises = fc.render(doc)
@@ -2250,6 +2306,15 @@ class ModuleGen(object):
                 st.append('  %s : %s' % (lean_ident(k), lean_type(attrs[k])))
             func_texts.append('\n'.join(st))
             func_texts.extend(texts)
+        for fname, fs in spec.get('fragments', {}).items():     # w5-smallsrc: harness/py2lean_small.py
+            from harness import py2lean_small
+            text, item = py2lean_small.render_fragment(self, fname, fs)
+            func_texts.append(text)
+            self.items.append(item)
+        if spec.get('state'):
+            # (w5-codersrc) procedures on objects with mutable attributes: harness/py2lean_state.py
+            from harness import py2lean_state
+            func_texts.extend(py2lean_state.render_state(self, py2lean_state.STATE_SPECS[spec['state']]))
         head = ['/- GENERATED by harness/py2lean.py from %s — do not edit; rewritten on every check.' % spec['file'],
                 '   git blob of the source file: %s' % self.mod.blob,
                 '   Python constructs and their Lean renderings: notes/Tie.md. -/',
@@ -2269,6 +2334,14 @@ class ModuleGen(object):
             it['blob'] = self.mod.blob
             it['gen_module'] = gen_module_name(spec)
         return '\n'.join(head + body + tail) + '\n'
+
+
+def compiler_class(fs):
+    """the statement compiler of one SPEC entry: FuncCompiler, or its extension for the small functions"""
+    if fs.get('compiler') == 'small':
+        from harness import py2lean_small
+        return py2lean_small.SmallCompiler
+    return FuncCompiler
 
 
 def gen_module_name(spec):
